@@ -49,9 +49,9 @@ def owners(reason, default):
     return {default}
 
 
-def consts(mode, n, edges, br, d, marks=0, rerun=False, fail=False, multi=False, maxchoice=(0,), ends=2, orphans=False):
+def consts(mode, n, edges, br, d, marks=0, rerun=False, fail=False, multi=False, maxchoice=(0,), ends=2, orphans=False, dup=False):
     return {"Mode": mode, "N": n, "MaxEdges": edges, "MaxBr": br, "D": d, "MaxMarks": marks, "AllowRerun": rerun,
-            "AllowFail": fail, "AllowMulti": multi, "MaxChoice": list(maxchoice), "MaxEnds": ends, "AllowOrphans": orphans}
+            "AllowFail": fail, "AllowMulti": multi, "MaxChoice": list(maxchoice), "MaxEnds": ends, "AllowOrphans": orphans, "AllowDup": dup}
 
 
 INNER = [
@@ -273,20 +273,23 @@ def c01(tier, repo=None):
         fams = [("p3", consts("pregel", 3, 3, 1, 2, maxchoice=(3,)), {}),
                 ("p2m", consts("pregel", 2, 3, 1, 1, multi=True, maxchoice=(0, 2), ends=3), {}),
                 # two branches (also on the same node) with fan-out edges: sampled, the exhaustive family has 225 k scenarios
-                ("p3bb", consts("pregel", 3, 3, 2, 1, multi=True, maxchoice=(4,), ends=3), {"simulate": "num=1000000", "depth": 16, "seed": vlib.SEED, "workers": 1, "sim_seconds": 25, "keep": 15000})]
+                ("p3bb", consts("pregel", 3, 3, 2, 1, multi=True, maxchoice=(4,), ends=3), {"simulate": "num=1000000", "depth": 16, "seed": vlib.SEED, "workers": 1, "sim_seconds": 25, "keep": 15000}),
+                # a branch target that the same node also reaches by a plain edge (the value arrives twice, is delivered once)
+                ("p2d", consts("pregel", 2, 3, 1, 1, maxchoice=(3,), dup=True), {})]
         models = ["MC_EinoRun_pregel2.cfg"]
     else:
         fams = [("p3", consts("pregel", 3, 4, 1, 2, maxchoice=(4,)), {"timeout": 1800}),
                 ("p2m", consts("pregel", 2, 4, 1, 2, multi=True, maxchoice=(0, 2), ends=3), {}),
-                ("p4s", consts("pregel", 4, 7, 2, 2, multi=True, maxchoice=(5,), ends=3), {"simulate": "num=10000000", "depth": 18, "seed": vlib.SEED, "workers": 1, "sim_seconds": 150, "keep": 60000})]
+                ("p4s", consts("pregel", 4, 7, 2, 2, multi=True, maxchoice=(5,), ends=3), {"simulate": "num=10000000", "depth": 18, "seed": vlib.SEED, "workers": 1, "sim_seconds": 150, "keep": 60000}),
+                ("p3d", consts("pregel", 3, 3, 1, 1, maxchoice=(3,), dup=True), {"timeout": 1800})]
         models = ["MC_EinoRun_pregel2.cfg", "MC_EinoRun_pregel3.cfg"]
     def chains(rnd):
         scs, run = engine.gen_chains("ChainGen_q.cfg" if tier == "quick" else "ChainGen_t.cfg")
         log("  family chain: %d chain scenarios (stage sequences x branch policies, TLC %d states) with their lowering" % (len(scs), run.distinct))
         return scs + nest(scs, rnd, 0.5)       # half of them once more with a stage member turned into a graph (AppendGraph / Parallel.AddGraph / ChainBranch.AddGraph)
-    return run_engine_check("C01", tier, model_cfgs=models, families=fams, decorate_kw={"echo_frac": 0.12, "rmax_frac": 0.15, "anyout_frac": 0.1, "all_paradigms": True}, nontrivial=nontrivial,
+    return run_engine_check("C01", tier, model_cfgs=models, families=fams, decorate_kw={"echo_frac": 0.12, "rmax_frac": 0.15, "anyout_frac": 0.1, "all_paradigms": True, "pipe_frac": 0.4, "dopt_frac": 0.3}, nontrivial=nontrivial,
                             nest_frac=0.08, repo=repo, extra_scenarios=chains,
-                            assumptions=["graphs in which an edge and a branch of one source target the same node are outside the universe"])
+                            assumptions=["an edge and a branch of one source targeting the same node: any-predecessor mode only (families p2d / p3d); in all-predecessor mode the pair is outside the universe"])
 
 
 def c02(tier, repo=None):
